@@ -99,7 +99,12 @@ def base_streams(seed, tier):
     cases = [G.case_prim(i % 2, 4, c) for i, c in enumerate(chunks(bits, 100))]
     out.append(Stream("float-sweep", "parse.prim", "parse.prim.check", cases,
                       "%d f32 bit patterns (pool; every exponent x mantissa corners x sign; neighbours of the rounding boundaries (2n+1)/2000 and of n/1000; log-uniform magnitudes 1e-5..1e8; random bit patterns): s = format!(\"{:.3}\", x); y = s.parse::<f32>(); format!(\"{:.3}\", y) == s evaluated on the implementation's output, and the three values compared with the Flocq model (100 per case)" % len(bits)))
+    # instruction atoms registered by the HOST (InstructionSet::add), also with names that lex as numbers, print as their name and must
+    # be read back as instructions; nothing a previous run executed may change how a text is read
+    out.append(Stream("host-instructions-and-history", "parse.st", "parse.st.check", G.onto_state_cases(rng, names, names[:8], {"quick": 600, "thorough": 6000, "search": 2000}[tier]),
+                      "texts containing host-added instruction names (INF, 42, 1e3, TRUE, INTEGER.SQUARE, ...) and bound names, parsed onto whole states; 30% after the same InstructionSet executed unknown instruction items"))
     return out
+
 
 
 TECHNIQUE = ("Coq proof: the printed text of a program is the token sequence of its tree (split_whitespace over Display's \"( \" .. \" )\" and trim), each printable atom lexes back to itself (decimal i32 printer/parser inverse by digit-list induction), "
